@@ -3,8 +3,13 @@
 package exec
 
 import (
+	"context"
+
+	"github.com/grailbio/bigslice/frame"
 	zz "github.com/grailbio/bigslice/internal/zzverif"
 	"github.com/grailbio/bigslice/metrics"
+	"github.com/grailbio/bigslice/sliceio"
+	"github.com/grailbio/bigslice/stats"
 )
 
 // zzH_C20_resultScope: the counters reported for a result are the sum of the
@@ -36,4 +41,76 @@ func zzResultScope(lo, hi int) {
 		c.Incr(&g.tasks[0].Scope, 1)
 		zz.Assert(c.Value(r.Scope()) == sum, "result scope is computed once")
 	}
+}
+
+// zzCountingReader is user code that increments a counter through the task's
+// context scope for every Read call, then serves the model stream.
+type zzCountingReader struct {
+	sliceio.Reader
+	c     metrics.Counter
+	incrs []int64
+	calls int
+	total int64
+}
+
+func (r *zzCountingReader) Read(ctx context.Context, f frame.Frame) (int, error) {
+	if r.calls < len(r.incrs) {
+		r.c.Incr(metrics.ContextScope(ctx), r.incrs[r.calls])
+		r.total += r.incrs[r.calls]
+	}
+	r.calls++
+	return r.Reader.Read(ctx, f)
+}
+
+// zzH_C20_workerReply: counters incremented by user code while a worker runs
+// a task are scoped to that task and reach the driver unchanged: the reply of
+// Worker.Run carries exactly the task's counters, also when the same request
+// arrives again at a worker that has already run the task (a retried RPC whose
+// first reply was lost, a resubmission to a machine that still has the task),
+// and the driver's adoption of the reply (task.Scope.Reset(&reply.Scope))
+// leaves the task with these values.
+func zzH_C20_workerReply() {
+	old := *defaultChunksize
+	*defaultChunksize = 2
+	defer func() { *defaultChunksize = old }()
+	c := metrics.NewCounter()
+	n := zz.AnyIntIn("rows", 0, 2)
+	m := sliceio.ZZNewModel("out", n)
+	m.Deterministic = true
+	cr := &zzCountingReader{Reader: m, c: c, incrs: []int64{zz.AnyInt64("incr"), zz.AnyInt64("incr")}}
+	name := TaskName{InvIndex: 1, Op: "t", Shard: 0, NumShard: 1}
+	task := &Task{Name: name, Type: zzTyp2, NumPartition: 1}
+	task.Do = func([]sliceio.Reader) sliceio.Reader { return cr }
+	w := &worker{
+		store:     newMemoryStore(),
+		tasks:     map[uint64]map[TaskName]*Task{1: {name: task}},
+		taskStats: map[uint64]map[TaskName]*stats.Map{1: {name: stats.NewMap()}},
+		stats:     stats.NewMap(),
+	}
+	zzEncs, zzEncOrder, zzEncFailAt, zzEncWrites = map[*sliceio.Encoder]*zzEnc{}, nil, -1, 0
+	ctx := context.Background()
+	var reply taskRunReply
+	err := w.Run(ctx, taskRunRequest{Name: name, Invocation: 1}, &reply)
+	zz.Assert(err == nil, "a healthy run succeeds")
+	if err != nil {
+		return
+	}
+	if cr.calls >= 2 {
+		zz.Reach("two increments")
+	}
+	zz.Assert(c.Value(&reply.Scope) == cr.total, "the reply carries the counters incremented while computing the task")
+	// the same request again: the worker already has the task's result
+	var again taskRunReply
+	err = w.Run(ctx, taskRunRequest{Name: name, Invocation: 1}, &again)
+	zz.Assert(err == nil, "a repeated request for a completed task succeeds")
+	zz.Assert(cr.calls <= 3, "a completed task is not computed again")
+	zz.Assert(c.Value(&again.Scope) == cr.total, "the reply to a repeated request carries the task's counters as well")
+	// driver side: whichever reply is consumed, the driver's task ends with the values
+	var driverTask Task
+	if zz.AnyBool("driverConsumesSecondReply") {
+		driverTask.Scope.Reset(&again.Scope)
+	} else {
+		driverTask.Scope.Reset(&reply.Scope)
+	}
+	zz.Assert(c.Value(&driverTask.Scope) == cr.total, "the driver's task reports the sum of the increments performed while computing it")
 }
